@@ -391,6 +391,16 @@ func (s *configurationStore) Watch(ctx context.Context, ch chan<- configapi.Conf
 			s.mu.Unlock()
 		}()
 
+		// every exit path closes ch and keeps draining eventCh: the store's event loop may already hold an
+		// event for this listener and must never block on a watcher that has gone
+		closeAndDrain := func() {
+			close(ch)
+			go func() {
+				for range eventCh {
+				}
+			}()
+		}
+
 		if options.replay {
 			if options.configurationID != "" {
 				entry, err := s.configurations.Get(ctx, options.configurationID)
@@ -403,11 +413,12 @@ func (s *configurationStore) Watch(ctx context.Context, ch chan<- configapi.Conf
 					configuration := entry.Value
 					configuration.Version = uint64(entry.Version)
 					if ctx.Err() != nil {
-						close(ch)
+						closeAndDrain()
 						return
 					}
 					if err := s.populate(ctx, configuration); err != nil {
 						log.Error(err)
+						closeAndDrain()
 						return
 					}
 					ch <- configapi.ConfigurationEvent{
@@ -419,7 +430,7 @@ func (s *configurationStore) Watch(ctx context.Context, ch chan<- configapi.Conf
 				entries, err := s.configurations.List(ctx)
 				if err != nil {
 					log.Error(err)
-					close(ch)
+					closeAndDrain()
 					return
 				}
 				for {
@@ -432,13 +443,14 @@ func (s *configurationStore) Watch(ctx context.Context, ch chan<- configapi.Conf
 						continue
 					}
 					if ctx.Err() != nil {
-						close(ch)
+						closeAndDrain()
 						return
 					}
 					configuration := entry.Value
 					configuration.Version = uint64(entry.Version)
 					if err := s.populate(ctx, configuration); err != nil {
 						log.Error(err)
+						closeAndDrain()
 						return
 					}
 					ch <- configapi.ConfigurationEvent{
@@ -454,11 +466,7 @@ func (s *configurationStore) Watch(ctx context.Context, ch chan<- configapi.Conf
 			case event := <-eventCh:
 				ch <- event
 			case <-ctx.Done():
-				close(ch)
-				go func() {
-					for range eventCh {
-					}
-				}()
+				closeAndDrain()
 				return
 			}
 		}
